@@ -1,5 +1,5 @@
 CONSTANTS MaxRow = 1048576 MaxCol = 16384 Wide = TRUE MaxOpts = 2 MaxSst = 3 MaxCells = 4 UseBlock = TRUE MaxAttrs = 3
   Variants = "all" EmitReplay = TRUE
 SPECIFICATION MCSpec
-INVARIANTS Emit DecodeTotal SharedConsistent
+INVARIANTS Emit DecodeTotal SharedConsistent PositionsImplied
 CHECK_DEADLOCK FALSE
